@@ -159,6 +159,55 @@ pub fn run(ctx: &mut Ctx) {
             }
             eval(ctx, r, &rs, &v, "structured");
         }
+        // prescribed parity: data whose error codewords are sparse (a single non-zero value at each position of a
+        // block's parity, all equal, first + last, ...) - the dual of the structured syndromes
+        {
+            let k = r.k();
+            for b in 0..r.blocks {
+                let pos: Vec<usize> = (b..r.data).step_by(r.blocks).collect();
+                if pos.len() < k {
+                    continue;
+                }
+                let mut targets: Vec<Vec<u8>> = Vec::new();
+                for i in 0..k {
+                    if i < 3 || i + 3 >= k || ctx.is_thorough() || i % 7 == 0 {
+                        let mut t = vec![0u8; k];
+                        t[i] = 1 + ctx.rng.below(255) as u8;
+                        targets.push(t);
+                    }
+                }
+                let c = 1 + ctx.rng.below(255) as u8;
+                targets.push(vec![c; k]);
+                let mut fl = vec![0u8; k];
+                fl[0] = c;
+                fl[k - 1] = c;
+                targets.push(fl);
+                targets.push(vec![0u8; k]);
+                for t in targets {
+                    if !ctx.mine(item) {
+                        item += 1;
+                        continue;
+                    }
+                    item += 1;
+                    let d = crate::refimpl::gf::data_for_parity(k, &t);
+                    let mut v = if ctx.rng.chance(1, 2) { vec![0u8; r.data] } else { ctx.rng.bytes(r.data) };
+                    // block b: (optional codeword-aligned prefix is zero) ... then d at the end
+                    for p in &pos {
+                        v[*p] = 0;
+                    }
+                    for (j, dv) in d.iter().enumerate() {
+                        v[pos[pos.len() - k + j]] = *dv;
+                    }
+                    if let Some(ecc) = eval(ctx, r, &rs, &v, "prescribed_parity") {
+                        // harness cross-check: the block's parity is the prescribed one
+                        let got: Vec<u8> = (0..k).map(|j| ecc[b + j * r.blocks]).collect();
+                        if got != t {
+                            ctx.violation("prescribed_parity_not_reproduced", &case_for(r, &v), format!("block {}: expected parity {:?}", b, &t[..k.min(8)]));
+                        }
+                    }
+                }
+            }
+        }
         // encoder outputs: parity of DataMatrix::codewords() as shipped
         let n_enc = ctx.budget(16 * 20, 16 * 400);
         for _ in 0..n_enc {
